@@ -233,12 +233,12 @@ func init() {
 			if len(w.DB.Parses) == 0 {
 				return "nothing"
 			}
-			return fakepg.Describe(w.DB.Parses[len(w.DB.Parses)-1])
+			return "ok " + fakepg.Describe(w.DB.Parses[len(w.DB.Parses)-1])
 		}
 		if len(w.DB.Log) == 0 {
 			return "nothing"
 		}
-		return fakepg.Describe(w.DB.Log[len(w.DB.Log)-1].SQL)
+		return "ok " + fakepg.Describe(w.DB.Log[len(w.DB.Log)-1].SQL)
 	})
 
 	// bind schema [kv×4] stmt params order rnd → the parameter values as the database received them
